@@ -106,7 +106,7 @@ func c12Case(c *lib.Ctx, idx uint64) {
 
 type tstats struct {
 	compWithRef, compNoRef, rollovers, explicit, localRef, localNoRef, compUntimed, longestRun int
-	offsets                                                                                     [32]int
+	offsets                                                                                    [32]int
 }
 
 // timeStats replays the plan through the reference interpreter record by
